@@ -324,6 +324,18 @@ class C09(Check):
                     # every sweep point: put the first symbol at a tape-chosen depth so that this shared
                     # prefix is sometimes empty and sometimes holds entangled, measured or noisy state
                     pos0 = tape.draw(pos + 1, "sweep-first-pos")
+                    if len(qs_all) >= 2 and tape.chance(1, 2, "structural-ops?"):
+                        # state that is built before the copy point and restructured after it: an entangled
+                        # pair in the shared prefix, and a relabelling SWAP of that pair in the per-point part
+                        others = [q for q in qs_all if q != qp]
+                        qo = others[tape.draw(len(others), "pair-with")]
+                        swept.insert(pos0, [cirq.H(qp), cirq.CNOT(qp, qo)], strategy=cirq.InsertStrategy.NEW)
+                        pos0 += 2
+                        pos += 2
+                        after = pos0 + tape.draw(max(1, len(swept) - pos0 + 1), "swap-pos")
+                        swept.insert(min(after, len(swept)), cirq.SWAP(qp, qo) if tape.chance(2, 3, "swap-order?")
+                                     else cirq.SWAP(qo, qp), strategy=cirq.InsertStrategy.NEW)
+                        ctx.probe("sweep:entangled-prefix-then-swap")
                     swept.insert(pos0, (cirq.X ** tsym).on(qp), strategy=cirq.InsertStrategy.NEW)
                     swept.insert(min(pos + 1, len(swept)), (cirq.Z ** (tsym * 0.5)).on(qp), strategy=cirq.InsertStrategy.NEW)
                     values = [[0.25, 1.0], [1.0, 0.0, 0.5], [0.5, 0.75]][tape.draw(3, "sweep-values")]
